@@ -39,7 +39,9 @@ SHAPES = ['t_m', 'm_t', 't_t_m', 't_m_t', 'sub_m', 't_m_m', 'implicit', 'on_map'
           # a table joined after the model: no ON, non-equality ON, ON against a model column
           't_m_t_noon', 't_m_t_nonequi', 't_m_t_on_model', 't_m_t_left',
           # a sub-select joined after / before the model
-          't_m_sub', 't_m_sub_noon', 'sub_m_t']
+          't_m_sub', 't_m_sub_noon', 'sub_m_t',
+          # a CTE named like the (integration-qualified) table; an ON clause of the model that also relates two tables
+          'cte_named_like_table', 'on_map_extra_table_condition']
 ON_EXTRA = {
     # shape -> (join keyword, ON text with {t}, conjuncts of ON that may be pushed into the fetch of t2)
     't_t_m_on_and': ('JOIN', '{t}.id = t2.id AND t2.b = 3', {('eq', 'b', 3)}),
@@ -149,6 +151,19 @@ def build(a):
             frm = f'(SELECT * FROM int2.t2 WHERE b > 0) AS s JOIN {mref} JOIN {tref} ON t1.id = s.id'
             models[0]['feed'] = ['t2']
         tables.append(dict(name='t2', integration='int2', ref='s', via_subselect=True))
+    elif shape == 'cte_named_like_table':
+        if ta or ma:
+            return None
+        cte = 'WITH t1 AS (SELECT * FROM int2.t2 WHERE b > 0) '
+        frm = f'int1.t1 AS o JOIN t1 AS old ON o.id = old.id JOIN {mref}'
+        tables = [dict(name='t1', integration='int1', ref='o'), dict(name='t2', integration='int2', ref='old', via_subselect=True)]
+        models[0]['feed'] = ['t1', 't2']
+        t = 'o'
+    elif shape == 'on_map_extra_table_condition':
+        frm = f'{tref} JOIN int2.t2 ON {t}.id = t2.id JOIN {mref} ON {m}.p1 = {t}.a AND {t}.x = t2.y'
+        tables.append(dict(name='t2', integration='int2', ref='t2'))
+        models[0]['feed'] = ['t1', 't2']
+        models[0]['on_map'] = {'p1': f'{t}.a'}
     elif shape in ON_EXTRA:
         jk, on, allowed_on = ON_EXTRA[shape]
         frm = f'{tref} {jk} int2.t2 ON {on.replace("{t}", t)} JOIN {mref}'
@@ -174,7 +189,7 @@ def build(a):
     else:
         return None
     fmt = lambda s: s.replace('{t}', t).replace('{m}', m)
-    sql = f'SELECT {fmt(tsql)} FROM {frm}'
+    sql = (cte if shape == 'cte_named_like_table' else '') + f'SELECT {fmt(tsql)} FROM {frm}'
     if wsql:
         sql += ' WHERE ' + fmt(wsql)
     if lsql:
